@@ -107,7 +107,9 @@ const (
 	spent
 )
 
-func (i istate) String() string { return [...]string{"free(UNSPENT)", "locked(PENDING)", "spent(SPENT)"}[i] }
+func (i istate) String() string {
+	return [...]string{"free(UNSPENT)", "locked(PENDING)", "spent(SPENT)"}[i]
+}
 
 type st struct {
 	q qstate
